@@ -267,6 +267,39 @@ func (x *smbCtx) marshalStmts(stmts []ast.Stmt, blocksp *[]string, nested bool) 
 					}
 					continue
 				}
+				// X = binary.E.AppendUintN(X, uintN(c.F))  (the one-call form of make + PutUintN + append)
+				if ce, ok := unparen(s.Rhs[0]).(*ast.CallExpr); ok && len(ce.Args) == 2 && identName(ce.Args[0]) == lhs {
+					fn := identName(ce.Fun)
+					if strings.HasPrefix(fn, "binary.") && strings.Contains(fn, ".AppendUint") {
+						endian := "BE"
+						if strings.Contains(fn, "LittleEndian") {
+							endian = "LE"
+						}
+						w := 0
+						fmt.Sscanf(fn[strings.Index(fn, "AppendUint")+10:], "%d", &w)
+						stream := streamOfVar(lhs)
+						var m mop
+						okm := false
+						if f, ok := x.fieldOf(ce.Args[1]); ok {
+							m, okm = mop{Kind: "int", Field: f, Width: w / 8, Endian: endian}, true
+						} else if v, ok := x.lp.evalConst(ce.Args[1]); ok {
+							if sv, ok := intString(v); ok {
+								m, okm = mop{Kind: "constint", Width: w / 8, Endian: endian, Text: sv}, true
+							}
+						} else if g, ok := x.lenOfField(ce.Args[1]); ok {
+							m, okm = mop{Kind: "lenint", Field: g, Width: w / 8, Endian: endian}, true
+						}
+						if okm && w > 0 {
+							if stream == "" {
+								x.vars[lhs] = append(x.vars[lhs], m)
+							} else {
+								m.Stream = stream
+								x.cmd.M = append(x.cmd.M, m)
+							}
+							continue
+						}
+					}
+				}
 				// bytesStream, err := c.F.Marshal()
 				if ce, ok := unparen(s.Rhs[0]).(*ast.CallExpr); ok {
 					if se, ok := ce.Fun.(*ast.SelectorExpr); ok && se.Sel.Name == "Marshal" {
